@@ -99,6 +99,48 @@ def receiveID (cfg : Cfg) (w : Wire) : Out :=
         | none => .ok "keyed"
     | .ok _ => if cfg.ridCast then .err "cast" else .panic "p2p.client.receiveID|typeassert|ptr.Message.(*ID)"
 
+/-! ### 11b. `client.dispatch`: matching reply packets with pending requests
+
+`RequestNonce` and `ReplyFlag` are packet fields the peer controls. `requests` maps the nonces the
+node issued on this link to their pending request (`*p2pRequest`); a lookup of any other nonce
+yields nil. -/
+
+inductive DispEv where
+  | send                    -- a local request goes out: it gets the next nonce and is recorded
+  | cancel (nonce : Nat)    -- the requester gave up (its context is done); the entry stays
+  | reply (nonce : Nat)     -- a signed packet with ReplyFlag and this RequestNonce arrives
+  deriving DecidableEq, Repr
+
+structure DispSt where
+  pending : List (Nat × Bool) := []     -- nonce ↦ cancelled?
+  next : Nat := 0
+  alive : Bool := true
+  deriving Repr
+
+def dispLookup (k : Nat) : List (Nat × Bool) → Option Bool
+  | [] => none
+  | (k', c) :: r => if k' = k then some c else dispLookup k r
+
+def dispStep (cfg : Cfg) (s : DispSt) : DispEv → DispSt × Out
+  | .send => if !s.alive then (s, .dropped) else
+    ({ s with pending := (s.next, false) :: s.pending, next := s.next + 1 }, .ok s!"sent {s.next}")
+  | .cancel k => if !s.alive then (s, .dropped) else
+    ({ s with pending := s.pending.map (fun e => if e.1 = k then (e.1, true) else e) }, .ok "")
+  | .reply k => if !s.alive then (s, .dropped) else
+    match dispLookup k s.pending with
+    | some cancelled =>
+      ({ s with pending := s.pending.filter (fun e => e.1 != k) }, if cancelled then .ok "late" else .ok "matched")
+    | none =>
+      if cfg.dispReplyNil then (s, .dropped)
+      else ({ s with alive := false }, .panic "p2p.client.dispatch|deref|p2pRequest.ctx")
+
+def dispRun (cfg : Cfg) : DispSt → List DispEv → DispSt × List Out
+  | s, [] => (s, [])
+  | s, e :: es =>
+    let (s1, o) := dispStep cfg s e
+    let (s2, os) := dispRun cfg s1 es
+    (s2, o :: os)
+
 /-! ### 12. `messageDispatch` -/
 
 inductive Feed where
